@@ -290,20 +290,49 @@ var coreFuncs = map[string]bool{"parseExpression": true, "parseProjectionRHS": t
 
 var parserFile *ast.File
 
-func helperBody(name string) *ast.BlockStmt {
+func helperDecl(name string) *ast.FuncDecl {
 	if coreFuncs[name] || parserFile == nil {
 		return nil
 	}
-	var found *ast.BlockStmt
+	var found *ast.FuncDecl
 	for _, d := range parserFile.Decls {
 		if fd, ok := d.(*ast.FuncDecl); ok && fd.Name.Name == name && fd.Body != nil && fd.Recv != nil {
 			if found != nil {
 				return nil
 			}
-			found = fd.Body
+			found = fd
 		}
 	}
 	return found
+}
+
+func helperBody(name string) *ast.BlockStmt {
+	if fd := helperDecl(name); fd != nil {
+		return fd.Body
+	}
+	return nil
+}
+
+// substArg replaces a helper's parameter by the argument it was called with: `bindingPowers[param]` and a
+// bare `param` become what the caller wrote (a helper such as parseBinary(nodeType, operator, left) that
+// computes its power as bindingPowers[operator] is read as if inlined at each call).
+func substArg(x ast.Expr, subst map[string]ast.Expr) ast.Expr {
+	if len(subst) == 0 {
+		return x
+	}
+	switch e := x.(type) {
+	case *ast.Ident:
+		if r, ok := subst[e.Name]; ok {
+			return r
+		}
+	case *ast.IndexExpr:
+		if id, ok := e.Index.(*ast.Ident); ok {
+			if r, ok := subst[id.Name]; ok {
+				return &ast.IndexExpr{X: e.X, Lbrack: e.Lbrack, Index: r, Rbrack: e.Rbrack}
+			}
+		}
+	}
+	return x
 }
 
 // rbpArgs returns the argument of every call <ident>.<callee>(X) inside scope, and inside the
@@ -311,8 +340,8 @@ func helperBody(name string) *ast.BlockStmt {
 func rbpArgs(scope ast.Node, callee, what string) []ast.Expr {
 	var args []ast.Expr
 	visited := map[string]bool{}
-	var walk func(n ast.Node)
-	walk = func(scope ast.Node) {
+	var walk func(n ast.Node, subst map[string]ast.Expr)
+	walk = func(scope ast.Node, subst map[string]ast.Expr) {
 		ast.Inspect(scope, func(n ast.Node) bool {
 			c, ok := n.(*ast.CallExpr)
 			if !ok {
@@ -323,9 +352,19 @@ func rbpArgs(scope ast.Node, callee, what string) []ast.Expr {
 				return true
 			}
 			if _, recv := sel.X.(*ast.Ident); recv && sel.Sel.Name != callee && !visited[sel.Sel.Name] {
-				if hb := helperBody(sel.Sel.Name); hb != nil {
+				if hd := helperDecl(sel.Sel.Name); hd != nil {
 					visited[sel.Sel.Name] = true
-					walk(hb)
+					inner := map[string]ast.Expr{}
+					i := 0
+					for _, f := range hd.Type.Params.List {
+						for _, nm := range f.Names {
+							if i < len(c.Args) {
+								inner[nm.Name] = substArg(c.Args[i], subst)
+							}
+							i++
+						}
+					}
+					walk(hd.Body, inner)
 				}
 			}
 			if sel.Sel.Name != callee {
@@ -334,11 +373,11 @@ func rbpArgs(scope ast.Node, callee, what string) []ast.Expr {
 			if _, recv := sel.X.(*ast.Ident); !recv || len(c.Args) != 1 || c.Ellipsis.IsValid() {
 				die(what, "call `%s` at %s is not <receiver>.%s(<one argument>)", src(c), at(c), callee)
 			}
-			args = append(args, c.Args[0])
+			args = append(args, substArg(c.Args[0], subst))
 			return true
 		})
 	}
-	walk(scope)
+	walk(scope, nil)
 	return args
 }
 
